@@ -12,6 +12,9 @@
   returns its response after a single transmission on a new connection.
 -/
 import Msmart.Lemmas.SessionRetry
+import Msmart.Lemmas.SessionRecover
+import Msmart.Props.C01
+import Msmart.Props.C06
 import Msmart.Lemmas.SessionContain
 import Msmart.Props.C13
 
@@ -113,12 +116,6 @@ theorem no_response_reported_offline (r r' : Run) (h : ∀ reply ∈ r.replies, 
 
 /-! ### recovery -/
 
-theorem pending_opDisconnect (s : S) : (opDisconnect s).w.pending = s.w.pending := by
-  unfold opDisconnect; split <;> rfl
-theorem connects_opDisconnect (s : S) : (opDisconnect s).w.connects = s.w.connects := by
-  unfold opDisconnect; split <;> rfl
-theorem nConn_opDisconnect (s : S) : (opDisconnect s).w.nConn = s.w.nConn := by
-  unfold opDisconnect; split <;> rfl
 
 /-- **C08 (recovery, V2).** From EVERY state in which the connection is not alive — which is where a
     final timeout, a protocol error of the read, a peer close, a refused or a hanging connect leave
@@ -218,6 +215,85 @@ theorem failed_read_drops_connection (p : Params) (rx : Reactions) (frame : Byte
         · simp only [Prod.mk.injEq] at h
           obtain ⟨h1, _⟩ := h
           cases h1
+
+/-- **C08 (recovery, V3, abstract peer).** From EVERY state whose connection is not alive, on a quiet
+    network, with stored credentials and a connect that succeeds: if the peer answers the handshake
+    request with one packet whose payload yields a session key, and the following data request with
+    one packet that decodes under that key, the exchange reconnects, authenticates first and returns
+    exactly the peer's response after a single data transmission. -/
+theorem recovery_v3 {p : Params} {rx : Reactions} {s : S} (frame : Bytes) (n : Nat) (cs : List ConnOutcome)
+    (tok key : Bytes) (hver : s.l.version = 3) (hal : connAlive s = false) (hquiet : s.w.pending = [])
+    (hconn : s.w.connects = .ok :: cs) (hexp : FreshExpiryOk s)
+    (htok : s.l.token = some tok) (hkey : s.l.key = some key)
+    (htok' : tok.isEmpty = false ∧ tok.length < 65536) (hkey' : key.isEmpty = false)
+    (d0 : Nat) (b0 reply payload lk : Bytes) (hrx0 : rx (s.w.nConn + 1) 0 = [(d0, .data b0)]) (hd0 : d0 ≤ p.readTimeout)
+    (hparse0 : parseLoop b0 = ([reply], [])) (hproc : processPacket none reply = .ok payload)
+    (hlk : getLocalKey key payload = .ok lk)
+    (d1 : Nat) (b1 pkt f : Bytes) (hrx1 : rx (s.w.nConn + 1) 1 = [(d1, .data b1)]) (hd1 : d1 ≤ p.readTimeout)
+    (hparse1 : parseLoop b1 = ([pkt], [])) (hdec : decodeWith true (some lk) pkt = .ok f) :
+    ∃ s', lanSend p rx s frame (n + 1) = (.ok [f], s') ∧ nData (evsOf s') = nData (evsOf s) + 1 ∧
+      ∃ tr, evsOf s' = evsOf s ++ tr ∧ .accept (s.w.nConn + 1) lk ∈ tr :=
+  lanSend_recovers_v3 frame n cs tok key hver hal hquiet hconn hexp htok hkey htok' hkey' d0 b0 reply payload lk
+    hrx0 hd0 hparse0 hproc hlk d1 b1 pkt f hrx1 hd1 hparse1 hdec
+
+theorem handshakeReply_wf (key nonce : Bytes) (hn : nonce.length = 32) (ctr : Nat) :
+    C04.WfPacket (Spec.V3.handshakeReply key nonce ctr) := by
+  have hcl : (Crypto.AES.cbcEncrypt key Spec.V3.iv nonce).length = 32 := by rw [Crypto.AES.cbcEncrypt_length, hn]
+  have hsl : (Crypto.SHA256.sha256 nonce).length = 32 := Crypto.SHA256.sha256_length nonce
+  refine ⟨by simp [Spec.V3.handshakeReply, Spec.V3.header], ?_, ?_⟩
+  · simp [Spec.V3.handshakeReply, Spec.V3.header, Spec.V3.be16, hcl, hsl]
+  · have hlen : (Spec.V3.handshakeReply key nonce ctr).length = 72 := by
+      simp [Spec.V3.handshakeReply, Spec.V3.header, Spec.V3.be16, hcl, hsl]
+    rw [hlen]
+    simp [sizeField, Spec.V3.handshakeReply, Spec.V3.header, Spec.V3.be16]
+
+/-- **C08 (recovery, V3, honest device).** The same with the peer instantiated by the independent
+    device specification: the device answers the handshake request with `Spec.V3.handshakeReply` for
+    the stored key and a fresh 32-byte nonce, and the data request with its response frame in a V2
+    packet encrypted under the session key `nonce XOR key`, each in one TCP segment within the read
+    timeout.  Then — from ANY state with a dead connection — `LAN.send` returns exactly the device's
+    frame.  (Composition of C02, C04, C05, C06 with the Session model.) -/
+theorem recovery_v3_honest_device {p : Params} {rx : Reactions} {s : S} (frame : Bytes) (n : Nat) (cs : List ConnOutcome)
+    (tok key nonce : Bytes) (hver : s.l.version = 3) (hal : connAlive s = false) (hquiet : s.w.pending = [])
+    (hconn : s.w.connects = .ok :: cs) (hexp : FreshExpiryOk s)
+    (htok : s.l.token = some tok) (hkey : s.l.key = some key)
+    (htok' : tok.isEmpty = false ∧ tok.length < 65536) (hk32 : key.length = 32) (hn32 : nonce.length = 32)
+    (d0 ctr0 : Nat) (hd0 : d0 ≤ p.readTimeout)
+    (hrx0 : rx (s.w.nConn + 1) 0 = [(d0, .data (Spec.V3.handshakeReply key nonce ctr0))])
+    (d1 ctr1 id : Nat) (ts filler padBytes resp : Bytes) (hd1 : d1 ≤ p.readTimeout)
+    (hts : ts.length = 8) (hfl : filler.length = 12) (hresp : resp.length ≤ 255)
+    (hpl : padBytes.length = Spec.V3.padOf (Spec.V2.encode id ts filler resp).length)
+    (hrx1 : rx (s.w.nConn + 1) 1 = [(d1, .data (Spec.V3.encodeEncrypted (Spec.V3.sessionKey key nonce) 3 ctr1
+        (Spec.V2.encode id ts filler resp) padBytes))]) :
+    ∃ s', lanSend p rx s frame (n + 1) = (.ok [resp], s') ∧ nData (evsOf s') = nData (evsOf s) + 1 := by
+  have hfit : 56 + (encryptAes resp).length < 65536 := C02.small_frames_fit resp hresp
+  have hv2len : (Spec.V2.encode id ts filler resp).length = 56 + (encryptAes resp).length :=
+    C03.authentic_length id ts filler resp hts hfl hfit
+  have hel : (encryptAes resp).length ≤ 272 := by rw [Lemmas.encryptAes_length]; omega
+  have hpadlt : Spec.V3.padOf (Spec.V2.encode id ts filler resp).length < 16 := by unfold Spec.V3.padOf; omega
+  have hsz : (Spec.V2.encode id ts filler resp).length + Spec.V3.padOf (Spec.V2.encode id ts filler resp).length + 32 < 65536 := by
+    omega
+  obtain ⟨payload, hproc, hlk⟩ := C06.handshake_agreement key nonce hn32 hk32 ctr0 none
+  have hkne : key.isEmpty = false := by cases key <;> simp_all
+  have hparse0 : parseLoop (Spec.V3.handshakeReply key nonce ctr0) = ([Spec.V3.handshakeReply key nonce ctr0], []) := by
+    have := C04.parse_complete_stream [Spec.V3.handshakeReply key nonce ctr0]
+      (by intro q hq; simp at hq; subst hq; exact handshakeReply_wf key nonce hn32 ctr0) (by simp) [] rfl
+    simpa using this
+  have hwf1 := C01.v3_packet_wf (Spec.V3.sessionKey key nonce) (Spec.V2.encode id ts filler resp) padBytes 3 ctr1 hpl hsz
+  have hparse1 : parseLoop (Spec.V3.encodeEncrypted (Spec.V3.sessionKey key nonce) 3 ctr1 (Spec.V2.encode id ts filler resp) padBytes)
+      = ([Spec.V3.encodeEncrypted (Spec.V3.sessionKey key nonce) 3 ctr1 (Spec.V2.encode id ts filler resp) padBytes], []) := by
+    have := C04.parse_complete_stream [_] (by intro q hq; simp at hq; subst hq; exact hwf1) (by simp) [] rfl
+    simpa using this
+  have hdec : decodeWith true (some (Spec.V3.sessionKey key nonce))
+      (Spec.V3.encodeEncrypted (Spec.V3.sessionKey key nonce) 3 ctr1 (Spec.V2.encode id ts filler resp) padBytes) = .ok resp := by
+    unfold decodeWith
+    simp only [↓reduceIte]
+    rw [C05.v3_decode_spec_response _ _ padBytes ctr1 hpl hsz]
+    simp only
+    exact C02.v2_decode_spec_encode resp ts filler id hts hfl hfit
+  obtain ⟨s', h1, h2, _⟩ := recovery_v3 (p := p) (rx := rx) (s := s) frame n cs tok key hver hal hquiet hconn hexp htok hkey htok' hkne
+    d0 _ _ payload _ hrx0 hd0 hparse0 hproc hlk d1 _ _ resp hrx1 hd1 hparse1 hdec
+  exact ⟨s', h1, h2⟩
 
 /-! non-vacuity: a ready state exists and a one-packet V2 answer is a `segQueue` of one item -/
 example : Ready { l := { conn := some { core := { cid := 1, v3 := false } } } } { core := { cid := 1, v3 := false } } :=
